@@ -37,8 +37,19 @@ def check(run, F, tier):
             continue
         key = ty.split("<")[0].replace("mqtt::packet::", "")
         try:
-            a, ua = serial.sequences(F, m["to_continuous_buffer"])
-            b, ub = serial.sequences(F, m["to_buffers"])
+            if serial.list_fields(F, ty):
+                # list-carrying packets: compared for lists of 0, 1 and 2 (symbolic) entries, iteration followed exactly
+                a, ua, b, ub = [], 0, [], 0
+                for n in (0, 1, 2):
+                    a1, ua1 = serial.sequences(F, m["to_continuous_buffer"], list_len=n)
+                    b1, ub1 = serial.sequences(F, m["to_buffers"], list_len=n)
+                    a += [((("entries", n),) + k, items, p, raw) for k, items, p, raw in a1]
+                    b += [((("entries", n),) + k, items, p, raw) for k, items, p, raw in b1]
+                    ua += ua1
+                    ub += ub1
+            else:
+                a, ua = serial.sequences(F, m["to_continuous_buffer"])
+                b, ub = serial.sequences(F, m["to_buffers"])
         except Exception as e:  # noqa
             r1.violation(key, "could not extract the serialiser sequences of %s: %r" % (ty, e))
             continue
